@@ -152,4 +152,18 @@ CLAIMS = {
               "normalisable fragment (exit 2, undecided). GeneralCalibrationIndexKernel is outside the anchors. Trusted: range/list semantics."),
         technique="static analysis: piecewise-affine normal forms over symbolic regions (no solver: coefficient-wise sign decisions)",
     ),
+    "C14": dict(
+        text=("Decides the noise dresser from its source for all circuits and settings: (N1) in the dresser walk, the measurement dresser, "
+              "the block splitter and the Pauli pass every input instruction reaches an emit on every path (path enumeration of the loop "
+              "bodies; [noise, *block, noise] wrapping; tail block yielded; one measurement per target on the same target); (N2/N3) inserted "
+              "names and every string key that is later looked up with instruction.name are checked against a frozen table of Stim aliases "
+              "-- an alias key (the historic 'MZ') can never match; (N4) the idle channel is compared in affine normal form with "
+              "px = py = (1-e^{-t/T1})/4, pz = (1-e^{-t/T2})/2 - (1-e^{-t/T1})/4 at t = half the maximum over the WHOLE block, each clamped "
+              "to [0,1], and X+Y+Z <= 1 by interval arithmetic over e^(.) in [0,1]; (N5) the index whose settings are looked up is the "
+              "very target the emitted instruction acts on, indexed settings fall back to defaults only for unmapped indices, duration keys "
+              "read their own duration field, apply_noise hands the given map to the factory."),
+        note=("Trusted: Stim reports canonical names (alias table frozen in the checker; the thorough tier cross-checks it against the "
+              "installed stim when importable); numpy exp/min/max semantics. Not decided: numeric values of probabilities."),
+        technique="static analysis: path enumeration of emit loops, literal key tables vs. alias reference, affine normal form + interval bound of the error formula",
+    ),
 }
